@@ -19,4 +19,6 @@ func checkC13(p *Prog, r *Report) {
 	aolListings(p, r, m, "C13")
 	checkInitGenesisCallers(p, r, "C13", "x/aol")
 	r.Floor("in-loop-decode-targets(x/aol)", checkLoopFreshDecode(p, r, "C13", func(fn *ssa.Function) bool { return InPkgs(fn, "x/aol") }), 2)
+	checkNoLanguageDowngrade(p, r, "C13")
+	checkModuleExtensionInterfaces(p, r, "C13", []string{"x/aol"})
 }
